@@ -33,5 +33,5 @@ HARNESSES = [B(x) for x in _q] + [B(x, tiers=('thorough',)) for x in seqs('isacp
 ASSUMPTIONS = ['the block object is built directly in memory with the layout of queue_internal.h (offsets probed from the sources): dispatch_block_create* / block.cpp / BlocksRuntime copy helpers are outside the check',
                'at most one execution per object (the library documents executing twice together with wait/notify as a client error); the kernel wait is a stub that reports the timeout; one notification queue with a counting push',
                'W = a timed wait during whose sleep another thread calls dispatch_block_cancel']
-LEVEL_TEXT = 'placeholder'
-LEVEL_NOTE = 'placeholder'
+LEVEL_TEXT = 'Block objects constructed directly in memory (layout probed from the sources) with the real private group; all histories up to length 3 (thorough 4) over {direct / sync / async invocation, cancel, testcancel, wait(FOREVER / NOW / timed with a concurrent cancel), notify}: body at most once and not at all if cancelled before start, completion on first (possibly skipped) execution, wait 0 only after completion and non-zero only on timeout, each notification submitted exactly once and not before completion, testcancel monotone (a timed-out wait does not erase a concurrent cancel).'
+LEVEL_NOTE = 'dispatch_block_create* / block.cpp / BlocksRuntime copy helpers are outside (C++ unit, not encodable); one execution per object; kernel wait is a stub.'
